@@ -345,6 +345,8 @@ func Spec() *explore.Spec {
 		ID: "C04",
 		Families: []*explore.Family{
 			{Name: "union", ShardDepth: 2, Body: unionRoundTrip, Doc: "a struct with a `thrift:\",union\"` interface field: each member selected (or none), holding a non-zero or its zero value x 3 protocols: the selection and the values survive the round trip"},
+			{Name: "enum-range", ShardDepth: 2, Body: enumRange, Doc: "enum fields of kind int64 and int holding 12 values around the int32 range (enums are 32-bit on the wire) x 3 protocols: Marshal reports an error for a value that does not fit, or the value survives the round trip - it is never truncated silently"},
+			{Name: "union-containers", ShardDepth: 2, Body: unionContainers, Doc: "two unions (3 x 3 member selections) as map values, list elements and map values behind pointers x 3 protocols: each comes back selecting its member with its value"},
 			{Name: "embedded", ShardDepth: 2, Body: embedded, Doc: "struct types whose fields are promoted through 1..5 levels of embedded structs, through embedded pointers, and through two embedded siblings: every field alone and all together (13 patterns) x 3 protocols; round trip, the encoding decoded into a flat struct declaring the same ids, and the flat struct's encoding decoded into the embedding type"},
 			{Name: "long-strings", ShardDepth: 2, Body: longStrings, Doc: "strings, binaries and list elements of 18 lengths (0 .. 1 MiB, around 16 KiB, 64 KiB, 128 KiB, 256 KiB) between other fields x 3 protocols x {Unmarshal, Decoder over a plain reader, Decoder over one-byte reads}: the value and the fields after it survive"},
 			{Name: "marshal-histories", ShardDepth: 2, Body: marshalHistories, Doc: "every sequence of 2-3 Marshal calls over 3 protocols x 5 values: each returned payload keeps its bytes and decodes to its value after every later call"},
